@@ -20,6 +20,15 @@ Determinism (no sleeps, no races):
    assumptions, by a watcher thread that sees the main thread asleep inside wait4(pid, 0) in
    /proc/self/task/<tid>/{stat,syscall}; it interrupts the call and the operation is logged as
    BLOCK.
+ * "somebody else collects the dead child's status" is a schedule the harness chooses: either a
+   helper thread calls os.waitpid() on the zombie (environment action `stolen`), or - `waitsteal` -
+   the child is still running when pexpect polls it and, at the moment pexpect enters its BLOCKING
+   waitpid(pid, 0), the child is made to exit and the helper thread reaps it first; the blocking
+   call then fails with ECHILD exactly as it does when the foreign reaper wins the race.  The
+   process-global variant (SIGCHLD ignored in the host program: the kernel discards the status) runs
+   in a helper process of its own (lifecases.helper_main, AUTOREAP) - there waitid() cannot be the
+   oracle (the kernel keeps nothing): the fate is the one the harness commanded, and the death is
+   awaited by watching /proc/<pid> disappear.
  * as soon as the old descriptor number becomes free an "intruder" (one end of a socketpair with
    one byte pending) is dup2()ed onto it: whatever pexpect then does to that NUMBER is seen
    (bytes written to it, the pending byte consumed, the intruder closed).
@@ -32,6 +41,11 @@ import ptyprocess.ptyprocess as _pp
 PEER = os.path.join(os.path.dirname(os.path.abspath(__file__)), 'peers', 'lifepeer.sh')
 SIGNAMES = {1: 'HUP', 2: 'INT', 9: 'KILL', 15: 'TERM', 18: 'CONT', 19: 'STOP'}
 _WAIT4 = {'x86_64': 61, 'aarch64': 260}.get(platform.machine(), 61)
+# signals whose default action is "dump core"
+CORE_SIGNALS = (3, 4, 5, 6, 7, 8, 11, 24, 25, 31)
+# True in the helper process that runs with SIGCHLD ignored (lifecases.helper_main)
+AUTOREAP = False
+LOG_ATTRS = ('logfile', 'logfile_read', 'logfile_send')
 
 
 class Blocked(BaseException):
@@ -123,6 +137,10 @@ class _OsProxy(object):
             w.syscalls.append('kill:%d' % sig)
             if w.reaped_seen:
                 w.kill_after_reap = True
+            if w.stolen:
+                # the pid is nobody's (or already somebody else's): what the kernel answers for a
+                # pid that does not exist - never signal a number that may have been recycled
+                raise ProcessLookupError(errno.ESRCH, 'No such process')
             os.kill(pid, sig)
             w.mirror_signal(sig)
             return
@@ -130,6 +148,8 @@ class _OsProxy(object):
 
     def waitpid(self, pid, opts):
         w = _current
+        if w is not None and pid == w.pid and opts == 0 and w.plan is not None:
+            w.fire_plan()          # the child exits and its status goes to someone else, just before we block
         r = os.waitpid(pid, opts)
         if w is not None and pid == w.pid and r[0] == pid:
             w.reaped_seen = True
@@ -254,7 +274,7 @@ class Intruder(object):
 class Case(object):
     transport = None
 
-    def __init__(self, workdir):
+    def __init__(self, workdir, log='none'):
         install()
         self.workdir = workdir
         self.events = []
@@ -263,12 +283,50 @@ class Case(object):
         self.pid = -1
         self.reaped_seen = False
         self.kill_after_reap = False
+        self.stolen = False
+        self.plan = None
         self.gone = False
+        self.logattr = log          # 'none' | 'logfile' | 'logfile_read' | 'logfile_send'
+        self.logf = None
+        self.low = None
         self.base_fdset = set(os.listdir('/proc/self/fd'))
         self.base_fds = len(self.base_fdset)
         self.base_zombies = zombie_children()
 
+    # ---- the caller's log file ----
+    def open_log(self):
+        """(after the baseline of descriptors was taken) the log file the caller attaches: an
+        unlinked scratch file - one descriptor, accounted for in nlog()"""
+        if self.logattr == 'none':
+            return None
+        if self.logattr not in LOG_ATTRS:
+            raise HarnessError('log attribute %r' % self.logattr)
+        fd, path = tempfile.mkstemp(dir=self.workdir, prefix='log.')
+        self.logf = os.fdopen(fd, 'wb')
+        os.unlink(path)
+        return self.logf
+
+    def attach_log(self, c):
+        if self.logf is not None:
+            setattr(c, self.logattr, self.logf)
+
+    def nlog(self):
+        return 1 if self.logf is not None and not self.logf.closed else 0
+
+    def init_event(self, **kw):
+        e = {'e': 'init', 'tr': self.transport, 'disp': 'default', 'log': 'none' if self.logattr == 'none' else 'open',
+             'lsend': self.logattr != 'logfile_read'}
+        e.update(kw)
+        return e
+
+    def close_log(self):
+        if self.logf is not None and not self.logf.closed:
+            self.logf.close()
+
     # ---- to be provided by the transports ----
+    def fire_plan(self):
+        self.plan = None
+
     def settle(self):
         pass
 
@@ -298,8 +356,9 @@ class Case(object):
                 if self.gone and it[0] == 'op':
                     break
                 if it[0] == 'env':
-                    self.env(it[1], it[2])
-                    self.events.append({'e': 'env', 'a': it[1], 'v': it[2]})
+                    if self.env(it[1], it[2]) is not False:       # False: nothing happened yet (a plan was armed)
+                        self.events.append({'e': 'env', 'a': it[1], 'v': it[2]})
+                        self.after_env()
                 else:
                     self.op(it[1], it[2])
                 self.maybe_reuse()
@@ -307,9 +366,16 @@ class Case(object):
             _current = None
         return self.events
 
+    def after_env(self):
+        pass
+
     def op(self, name, arg, final=False):
         self.syscalls = []
-        ret, rv = self.call(name, arg)
+        self.in_op = True
+        try:
+            ret, rv = self.call(name, arg)
+        finally:
+            self.in_op = False
         ev = {'e': 'op', 'op': name, 'arg': arg, 'ret': ret, 'rv': rv, 'final': final,
               'exc': ret not in ('None', 'True', 'False', 'int', 'val')}
         ev.update(self.observe())
@@ -408,10 +474,13 @@ class Case(object):
         self.events.append(self.leak_facts())
         return self.events
 
+    in_op = False
+
     def release(self):
         if self.intruder is not None:
             self.intruder.close()
             self.intruder = None
+        self.close_log()
 
     def leak_facts(self):
         """descriptors / zombies left behind by this case; whatever is left is then removed so that
@@ -457,6 +526,42 @@ class Case(object):
                 pass
 
 
+def status_core(st):
+    """WCOREDUMP of the status word the object shows"""
+    return bool(st is not None and os.WIFSIGNALED(st) and os.WCOREDUMP(st))
+
+
+def core_probe(workdir):
+    """does a child of this process that raises its RLIMIT_CORE and dies of SIGQUIT in a writable
+    directory get the 'dumped core' flag from this kernel?  -> (flag seen, description).  A plain
+    fork / exec of /bin/sh / waitid+waitpid - no pexpect involved."""
+    import resource, shutil
+    try:
+        pattern = open('/proc/sys/kernel/core_pattern').read().strip()
+    except OSError:
+        pattern = '?'
+    soft, hard = resource.getrlimit(resource.RLIMIT_CORE)
+    d = tempfile.mkdtemp(dir=workdir, prefix='coreprobe.')
+    try:
+        pid = os.fork()
+        if pid == 0:
+            try:
+                os.chdir(d)
+                os.execv('/bin/sh', ['/bin/sh', '-c', 'ulimit -c unlimited 2>/dev/null || ulimit -c $(ulimit -H -c); kill -QUIT $$'])
+            finally:
+                os._exit(97)
+        si = os.waitid(os.P_PID, pid, os.WEXITED | os.WNOWAIT)
+        _, st = os.waitpid(pid, 0)
+        flag = os.WIFSIGNALED(st) and os.WCOREDUMP(st)
+        wrote = sorted(os.listdir(d))
+        desc = 'core_pattern=%r, RLIMIT_CORE hard limit %s, probe child killed by SIGQUIT: waitid si_code=%s%s, WCOREDUMP(status)=%s, files written %s' % (
+            pattern, 'unlimited' if hard == resource.RLIM_INFINITY else hard, si.si_code,
+            ' (CLD_DUMPED)' if si.si_code == os.CLD_DUMPED else '', bool(flag), wrote)
+        return bool(flag) and si.si_code == os.CLD_DUMPED, desc
+    finally:
+        shutil.rmtree(d, ignore_errors=True)
+
+
 def status_pair(st):
     if st is None:
         return 'none', -1
@@ -470,8 +575,8 @@ def status_pair(st):
 class ChildCase(Case):
     """common part of the cases with a real child process steered through a FIFO"""
 
-    def __init__(self, workdir, disp):
-        Case.__init__(self, workdir)
+    def __init__(self, workdir, disp, log='none'):
+        Case.__init__(self, workdir, log)
         self.disp = disp
         self.dir = tempfile.mkdtemp(dir=workdir)
         self.fifo = os.path.join(self.dir, 'cmd')
@@ -482,29 +587,84 @@ class ChildCase(Case):
         self.k_pend = set()
         self.k_fd_closed = False
         self.fate = ('none', -1)
+        self.fate_core = False
+        self.commanded = None
+        self.stolen_logged = False
 
     def attach(self):
         self.cmd = os.open(self.fifo, os.O_WRONLY)      # returns once the peer opened its end: traps are set
-        self.events.append({'e': 'init', 'tr': self.transport, 'disp': self.disp})
+        self.events.append(self.init_event(disp=self.disp))
 
     # ---- synchronisation: wait for the effect of a signal ----
     def _dies(self, sig):
         self.k_state = 'zombie'
         self.k_pend = set()
+        if AUTOREAP:
+            # SIGCHLD is ignored in this process: the kernel reaps the child itself and keeps no status.
+            # The death is awaited by watching the process disappear; the fate is the one commanded.
+            if self.in_op and not self.in_plan:
+                raise HarnessError('a death caused by the operation itself cannot be placed in the trace when SIGCHLD is ignored')
+            while proc_state(self.pid, os.getpid()) != 'reaped':
+                os.sched_yield()
+            if self.fate[0] == 'none':
+                self.fate = self.commanded or ('sig', sig)
+            self.stolen = True
+            self.reaped_seen = True
+            return
         self.note_fate(os.waitid(os.P_PID, self.pid, os.WEXITED | os.WNOWAIT))
+
+    in_plan = False
 
     def note_fate(self, si):
         """the REAL fate, as the kernel reports it (the zombie is left for pexpect to reap)"""
         if si is not None and self.fate[0] == 'none':
             self.fate = ('exit', si.si_status) if si.si_code == os.CLD_EXITED else ('sig', si.si_status)
+            self.fate_core = si.si_code == os.CLD_DUMPED
 
     def real_fate(self):
-        if self.fate[0] == 'none' and not self.reaped_seen:
+        if self.fate[0] == 'none' and not self.reaped_seen and not AUTOREAP:
             try:
                 self.note_fate(os.waitid(os.P_PID, self.pid, os.WEXITED | os.WNOWAIT | os.WNOHANG))
             except OSError:
                 pass
-        return {'fk': self.fate[0], 'fv': self.fate[1]}
+        return {'fk': self.fate[0], 'fv': self.fate[1], 'fc': self.fate_core}
+
+    def after_env(self):
+        # SIGCHLD ignored: dying and losing the status to the kernel are one step
+        if AUTOREAP and self.stolen and not self.stolen_logged:
+            self.stolen_logged = True
+            self.events.append({'e': 'env', 'a': 'stolen', 'v': 0})
+
+    def steal(self):
+        """somebody else in the program (a helper thread) calls waitpid() on the zombie first"""
+        if self.k_state != 'zombie' or self.reaped_seen:
+            raise HarnessError('nothing to steal')
+        got = []
+        t = threading.Thread(target=lambda: got.append(os.waitpid(self.pid, 0)))
+        t.start()
+        t.join()
+        if not got or got[0][0] != self.pid:
+            raise HarnessError('the foreign waitpid did not get the child')
+        self.stolen = True
+        self.reaped_seen = True
+
+    def fire_plan(self):
+        """pexpect is about to block in waitpid(pid, 0) on a child its poll saw running: the child
+        exits now and its status goes to someone else before the blocking call is entered"""
+        kind, code = self.plan
+        self.plan = None
+        if self.k_state != 'run':
+            return
+        self.in_plan = True
+        try:
+            self.env('exit', code)
+            self.events.append({'e': 'env', 'a': 'exit', 'v': code})
+            if not AUTOREAP:
+                self.steal()
+            self.stolen_logged = True
+            self.events.append({'e': 'env', 'a': 'stolen', 'v': 0})
+        finally:
+            self.in_plan = False
 
     def mirror_signal(self, sig):
         if self.k_state not in ('run', 'stop'):
@@ -539,17 +699,27 @@ class ChildCase(Case):
         if action == 'exit':
             if self.k_state != 'run':
                 raise HarnessError('exit command for a child that cannot read it')
+            self.commanded = ('exit', value)
             os.write(self.cmd, b'x%d\n' % value)
             self._dies(0)
         elif action == 'selfkill':
             if self.k_state != 'run' or (self.disp == 'ignore' and value in (1, 2)):
                 raise HarnessError('kill command for a child that cannot read it / ignores the signal')
+            self.commanded = ('sig', value)
             os.write(self.cmd, b'k%d\n' % value)
             self._dies(value)
         elif action == 'sig':
             if self.k_state in ('run', 'stop'):
                 os.kill(self.pid, value)
                 self.mirror_signal(value)
+        elif action == 'stolen':
+            self.steal()
+            self.stolen_logged = True
+        elif action == 'waitsteal':
+            self.plan = ('waitsteal', value)
+            return False
+        elif action == 'logclose':
+            self.close_log()
         else:
             raise HarnessError(action)
 
@@ -558,7 +728,13 @@ class ChildCase(Case):
         if self.cmd is not None:
             os.close(self.cmd)
             self.cmd = None
-        for p in (self.fifo,):
+        paths = [self.fifo]
+        if self.disp == 'core':
+            try:
+                paths += [os.path.join(self.dir, f) for f in os.listdir(self.dir) if f.startswith('core')]
+            except OSError:
+                pass
+        for p in paths:
             try:
                 os.unlink(p)
             except OSError:
@@ -572,10 +748,12 @@ class ChildCase(Case):
 class PtyCase(ChildCase):
     transport = 'pty'
 
-    def __init__(self, workdir, disp='default', cls=None):
-        ChildCase.__init__(self, workdir, disp)
+    def __init__(self, workdir, disp='default', cls=None, log='none'):
+        ChildCase.__init__(self, workdir, disp, log)
         cls = cls or pexpect.spawn
+        self.open_log()
         self.child = cls('/bin/sh', [PEER, self.fifo, disp], timeout=5, echo=False)
+        self.attach_log(self.child)
         self.setup(self.child)
         self.attach()
 
@@ -599,12 +777,15 @@ class PtyCase(ChildCase):
         o = {'proc': proc_state(self.pid, os.getpid()), 'fd': self.fd_state()}
         o.update(self.real_fate())
         # descriptors this case holds beyond the harness' own (command FIFO, the intruder's three)
-        o['dfd'] = nfds() - self.base_fds - (1 if self.cmd is not None else 0) - (3 if self.intruder is not None else 0)
+        o['dfd'] = nfds() - self.base_fds - (1 if self.cmd is not None else 0) - (3 if self.intruder is not None else 0) \
+            - self.nlog()
         c = self.child
         if c is None:
-            o.update(gone=True, term=False, closed=False, fdv='m1', es=-1, ss=-1, sk='none', sv=-1, eof=False, pclosed=False)
+            o.update(gone=True, term=False, closed=False, fdv='m1', es=-1, ss=-1, sk='none', sv=-1, sc=False, eof=False,
+                     pclosed=False)
             return o
         sk, sv = status_pair(c.status)
+        o['sc'] = status_core(c.status)
         o.update(gone=False, term=bool(c.terminated), closed=bool(c.closed),
                  fdv='num' if c.child_fd == self.fdnum else 'm1' if c.child_fd == -1 else 'other',
                  es=-1 if c.exitstatus is None else c.exitstatus,
@@ -634,7 +815,8 @@ class PopenCase(ChildCase):
         c = self.child
         sk, sv = status_pair(c.status)
         o = self.real_fate()
-        return {'proc': proc_state(self.pid, os.getpid()), 'fd': 'open', 'gone': False, 'fk': o['fk'], 'fv': o['fv'], 'dfd': -1,
+        return {'proc': proc_state(self.pid, os.getpid()), 'fd': 'open', 'gone': False, 'fk': o['fk'], 'fv': o['fv'],
+                'fc': o['fc'], 'sc': status_core(c.status), 'dfd': -1,
                 'term': bool(c.terminated), 'closed': False, 'fdv': 'num',
                 'es': -1 if c.exitstatus is None else c.exitstatus,
                 'ss': -1 if c.signalstatus is None else c.signalstatus, 'sk': sk, 'sv': sv,
